@@ -286,6 +286,7 @@ func (q *Queue) Read(pids []packets.PacketID) (elems []*queue.Elem, err error) {
 	}
 	for q.current >= q.len && !q.closed {
 		q.cond.Wait()
+		now = time.Now()
 	}
 	if q.closed {
 		return nil, queue.ErrClosed
